@@ -22,6 +22,7 @@ EXPLANATION = (
     'TIMEOUT/RECEIVE/PROTOCOL_ERROR and is total over the classes the frontend can raise in reader mode; R3 every '
     'clf.exchange of a tag command sits in a bounded retry whose try body leaves the loop right after a successful '
     'exchange, retries=0 is honoured for the passive-ack sector select; R4 nfc.tag.activate catches CommunicationError; '
+    'R2 the statements behind the retry loop folded per error class of the frontend map Timeout / Transmission / Protocol error to the three reason codes (also when the loop lives in an extracted helper); '
     'R5 tag controlled byte strings in the tag API (response frames, ATS, block data, control TLV values) are indexed, '
     'destructured or struct-unpacked only behind a length guard or in a handler -- unguarded reads are implicit IndexError / '
     'struct.error raise sites fed to R1; R6 failure values: where a helper answers a failed tag access with None / (None, None, None) '
